@@ -1,23 +1,10 @@
-(* TableCheck.v — the tables and constants regenerated from the Python source equal the
-   hand-written ones all theorems are proved about. Decided by computation. *)
+(* TableCheck.v — the DEFINITIONS of the default gates regenerated from the Python source equal the hand-written
+   table all theorems are proved about; with SigCheck and ConstCheck, everything the property files need. *)
 From Coq Require Import ZArith List String.
-From OSQ Require Import Num IR Construct DefaultTable DefaultGates Constants.
+From OSQ Require Import Num IR Construct DefaultTable DefaultGates Constants SigCheck ConstCheck.
 
 Lemma table_ok : gen_table = hand_table. Proof. reflexivity. Qed.
-Lemma noparam_ok : gen_noparam = hand_noparam. Proof. reflexivity. Qed.
-Lemma gate_set_ok : gen_gate_set = hand_gate_set. Proof. reflexivity. Qed.
-Lemma aliases_ok : gen_aliases = hand_aliases. Proof. reflexivity. Qed.
-Lemma measures_ok : gen_measures = hand_measures. Proof. reflexivity. Qed.
-Lemma measure_set_ok : gen_measure_set = hand_measure_set. Proof. reflexivity. Qed.
-Lemma resets_ok : gen_resets = hand_resets. Proof. reflexivity. Qed.
-Lemma reset_set_ok : gen_reset_set = hand_reset_set. Proof. reflexivity. Qed.
-Lemma atol_ok : (gen_atol_num = 1 /\ gen_atol_den = 10000000)%Z. Proof. split; reflexivity. Qed.
-Lemma normalize_ok : forall (T : Type) (N : Num T) (x : T), gen_normalize_angle N x = normalize_angle N x.
-Proof. reflexivity. Qed.
-Lemma precisions_ok : (gen_writer_precision = 8 /\ gen_v1_precision = 8 /\ gen_qs_deg_precision = 5)%Z.
-Proof. repeat split; reflexivity. Qed.
 
-(* everything the property files need in one statement *)
 Definition source_tables_checked : Prop :=
   gen_table = hand_table /\ gen_noparam = hand_noparam /\ gen_gate_set = hand_gate_set /\
   gen_aliases = hand_aliases /\ gen_measures = hand_measures /\ gen_measure_set = hand_measure_set /\
